@@ -186,7 +186,7 @@ def unicode_text(r):
 
 def plan(tier, seed):
     if tier == "quick":
-        specs = [{"mode": "hyp", "n": 320} for _ in range(16)]
+        specs = [{"mode": "hyp", "n": 800} for _ in range(16)]
     else:
         specs = [{"mode": "hyp", "n": int(os.environ.get("VERIF_C13_N", "15000"))} for _ in range(16)]
         specs += [{"mode": "atheris", "runs": int(os.environ.get("VERIF_ATHERIS_RUNS", "1500000")), "corpus": "seeded" if i % 2 == 0 else "empty", "idx": i}
